@@ -189,6 +189,19 @@ theorem rot_touches {fs : FS} {nrm f n : Nat} {p : Prim} (h : p ∈ rot fs nrm f
   · simp only [Prim.touches] at hj; omega
   · simp only [Prim.touches] at hj; omega
 
+/-- what the directory writer consists of -/
+theorem mem_dirWriter {g : Nat} {body : List (Option TmpKind)} {p : Prim}
+    (h : p ∈ dirWriter g body) :
+    p = .mkroot g ∨ (∃ l, p = .write g l) ∨ (∃ t, p = .tmp t) := by
+  simp only [dirWriter, List.mem_cons, List.mem_append, List.mem_map,
+    List.not_mem_nil, or_false] at h
+  rcases h with rfl | ⟨o, _, rfl⟩ | rfl
+  · exact Or.inl rfl
+  · cases o with
+    | none => exact Or.inr (Or.inl ⟨false, rfl⟩)
+    | some t => exact Or.inr (Or.inr ⟨t, rfl⟩)
+  · exact Or.inr (Or.inl ⟨true, rfl⟩)
+
 /-- a list of primitives that only ever change the path itself -/
 def WriterLike (w : List Prim) : Prop := ∀ p ∈ w, ∀ j, p.touches j → j = 0
 
@@ -196,8 +209,10 @@ theorem writerLike_writer (sv : Save) : WriterLike (writer sv) := by
   intro p h j hj
   unfold writer at h
   split at h
-  · simp [dirWriter] at h
-    rcases h with rfl | ⟨_, rfl⟩ | rfl <;> exact hj
+  · rcases mem_dirWriter h with rfl | ⟨_, rfl⟩ | ⟨_, rfl⟩
+    · exact hj
+    · exact hj
+    · exact hj.elim
   · simp [zipWriter] at h
     rcases h with ⟨_, _, rfl⟩ | rfl | ⟨_, rfl⟩
     · exact hj.elim
@@ -208,8 +223,10 @@ theorem writerLike_writerBroken (sv : Save) : WriterLike (writerBroken sv) := by
   intro p h j hj
   unfold writerBroken at h
   split at h
-  · simp [dirWriter] at h
-    rcases h with rfl | ⟨_, rfl⟩ | rfl <;> exact hj
+  · rcases mem_dirWriter h with rfl | ⟨_, rfl⟩ | ⟨_, rfl⟩
+    · exact hj
+    · exact hj
+    · exact hj.elim
   · simp [zipWriterBroken] at h
     rcases h with ⟨_, _, rfl⟩ | rfl | ⟨_, rfl⟩
     · exact hj.elim
@@ -457,13 +474,12 @@ theorem plan_no_moveBroken {maxB : Nat} {sv : Save} {fs : FS} {p : Prim}
   · rcases mem_rot hp with ⟨l, rfl⟩ | ⟨i, rfl, _, _⟩ <;> intro hc <;> cases hc
   · unfold writer at hp
     split at hp
-    · simp [dirWriter] at hp
-      rcases hp with rfl | ⟨_, rfl⟩ | rfl <;> intro hc <;> cases hc
+    · rcases mem_dirWriter hp with rfl | ⟨_, rfl⟩ | ⟨_, rfl⟩ <;> intro hc <;> cases hc
     · simp [zipWriter] at hp
       rcases hp with ⟨_, _, rfl⟩ | rfl | ⟨_, rfl⟩ <;> intro hc <;> cases hc
 
 theorem save_noPartialZip (maxB : Nat) (sv : Save) (k : Nat) (fs : FS)
-    (hk : faultKind (plan maxB sv fs) k ≠ .truncates) (h : NoPartialZip fs) :
+    (hk : faultKind sv.pol (plan maxB sv fs) k ≠ .truncates) (h : NoPartialZip fs) :
     NoPartialZip (save maxB sv k fs).1 := by
   have hrun : ∀ k', NoPartialZip (run (plan maxB sv fs) k' fs).1 := fun k' =>
     run_inv NoPartialZip _
@@ -520,7 +536,7 @@ theorem step_pathWhole (p : Prim) (hp : p.keepsPathWhole) (fs fs' : FS)
   | moveBroken g => exact hp.elim
 
 theorem zip_save_pathWhole (maxB : Nat) (h1 : 1 ≤ maxB) (sv : Save) (hz : sv.kind = .zip)
-    (k : Nat) (fs : FS) (hk : faultKind (plan maxB sv fs) k ≠ .truncates)
+    (k : Nat) (fs : FS) (hk : faultKind sv.pol (plan maxB sv fs) k ≠ .truncates)
     (h : (fs 0).isPart = false) :
     ((save maxB sv k fs).1 0).isPart = false := by
   have hrun : ∀ k', ((run (plan maxB sv fs) k' fs).1 0).isPart = false := by
@@ -661,11 +677,10 @@ theorem step_writer_wInv (sv : Save) (p : Prim) (hp : p ∈ writer sv ∨ p ∈ 
     rcases hp with hp | hp
     · unfold writer at hp
       split at hp
-      · simp [dirWriter] at hp
-        rcases hp with rfl | ⟨_, rfl⟩ | rfl
+      · rcases mem_dirWriter hp with rfl | ⟨_, rfl⟩ | ⟨t, rfl⟩
         · exact Or.inl rfl
         · exact Or.inr (Or.inl ⟨_, rfl⟩)
-        · exact Or.inr (Or.inl ⟨_, rfl⟩)
+        · exact Or.inr (Or.inr (Or.inl ⟨t, rfl⟩))
       · simp [zipWriter] at hp
         rcases hp with ⟨t, _, rfl⟩ | rfl | ⟨_, rfl⟩
         · exact Or.inr (Or.inr (Or.inl ⟨t, rfl⟩))
@@ -673,11 +688,10 @@ theorem step_writer_wInv (sv : Save) (p : Prim) (hp : p ∈ writer sv ∨ p ∈ 
         · exact Or.inr (Or.inr (Or.inl ⟨_, rfl⟩))
     · unfold writerBroken at hp
       split at hp
-      · simp [dirWriter] at hp
-        rcases hp with rfl | ⟨_, rfl⟩ | rfl
+      · rcases mem_dirWriter hp with rfl | ⟨_, rfl⟩ | ⟨t, rfl⟩
         · exact Or.inl rfl
         · exact Or.inr (Or.inl ⟨_, rfl⟩)
-        · exact Or.inr (Or.inl ⟨_, rfl⟩)
+        · exact Or.inr (Or.inr (Or.inl ⟨t, rfl⟩))
       · simp [zipWriterBroken] at hp
         rcases hp with ⟨t, _, rfl⟩ | rfl | ⟨_, rfl⟩
         · exact Or.inr (Or.inr (Or.inl ⟨t, rfl⟩))
